@@ -1,34 +1,270 @@
-(** * CodecProofs: entity handle encodings (entity.go). Property C17 (codec half). To be filled. *)
+(** * CodecProofs: entity handle encodings (entity.go). Property C17 (codec half). *)
 From Ark Require Import Model.Base Model.Codec.
+From Coq Require Import Lia ZifyN ZifyNat ZifyBool.
 
 Definition u32_bound : N := 4294967296%N.
+
+(** ** Arithmetic reading of the byte operations *)
+
+Local Open Scope N_scope.
+
+Lemma land_255 : forall x, N.land x 255 = x mod 256.
+Proof.
+  intros x. change 255 with (N.ones 8). rewrite N.land_ones. reflexivity.
+Qed.
+
+Lemma byte_of_spec : forall x k, byte_of x k = (x / 2 ^ (8 * k)) mod 256.
+Proof.
+  intros x k. unfold byte_of. rewrite land_255, N.shiftr_div_pow2. reflexivity.
+Qed.
+
+Lemma byte_of_lt : forall x k, byte_of x k < 256.
+Proof.
+  intros x k. rewrite byte_of_spec. apply N.mod_lt. discriminate.
+Qed.
+
+Lemma testbit_small : forall b k n, b < 2 ^ k -> k <= n -> N.testbit b n = false.
+Proof.
+  intros b k n Hb Hn.
+  destruct (N.eq_dec b 0) as [->|Hz].
+  - apply N.bits_0.
+  - apply N.bits_above_log2.
+    apply N.lt_le_trans with k; [|exact Hn].
+    apply N.log2_lt_pow2; [|exact Hb].
+    destruct b; [congruence|reflexivity].
+Qed.
+
+Lemma lor_shiftl_add : forall a b k, b < 2 ^ k -> N.lor (N.shiftl a k) b = a * 2 ^ k + b.
+Proof.
+  intros a b k Hb.
+  assert (Hl : N.land (N.shiftl a k) b = 0).
+  { apply N.bits_inj. intros n. rewrite N.land_spec, N.bits_0.
+    destruct (N.lt_ge_cases n k) as [Hn|Hn].
+    - rewrite N.shiftl_spec_low by exact Hn. reflexivity.
+    - rewrite (testbit_small b k n Hb Hn). apply andb_false_r. }
+  rewrite <- N.lxor_lor by exact Hl.
+  rewrite <- N.add_nocarry_lxor by exact Hl.
+  rewrite N.shiftl_mul_pow2. reflexivity.
+Qed.
+
+Local Ltac Zify.zify_post_hook ::= Z.div_mod_to_equations.
+
+Lemma get_u32_spec : forall b3 b2 b1 b0, b2 < 256 -> b1 < 256 -> b0 < 256 ->
+  get_u32 b3 b2 b1 b0 = b3 * 16777216 + b2 * 65536 + b1 * 256 + b0.
+Proof.
+  intros b3 b2 b1 b0 H2 H1 H0. unfold get_u32.
+  rewrite (lor_shiftl_add b1 b0 8) by (change (2 ^ 8) with 256; exact H0).
+  change (2 ^ 8) with 256.
+  rewrite (lor_shiftl_add b2 _ 16) by (change (2 ^ 16) with 65536; lia).
+  change (2 ^ 16) with 65536.
+  rewrite (lor_shiftl_add b3 _ 24) by (change (2 ^ 24) with 16777216; lia).
+  change (2 ^ 24) with 16777216.
+  lia.
+Qed.
+
+Lemma byte_of_0 : forall x, byte_of x 0 = x mod 256.
+Proof. intros. rewrite byte_of_spec. change (2 ^ (8 * 0)) with 1. rewrite N.div_1_r. reflexivity. Qed.
+Lemma byte_of_1 : forall x, byte_of x 1 = (x / 256) mod 256.
+Proof. intros. rewrite byte_of_spec. reflexivity. Qed.
+Lemma byte_of_2 : forall x, byte_of x 2 = (x / 65536) mod 256.
+Proof. intros. rewrite byte_of_spec. reflexivity. Qed.
+Lemma byte_of_3 : forall x, byte_of x 3 = (x / 16777216) mod 256.
+Proof. intros. rewrite byte_of_spec. reflexivity. Qed.
+
+Lemma get_put_u32 : forall x, x < 4294967296 ->
+  get_u32 (byte_of x 3) (byte_of x 2) (byte_of x 1) (byte_of x 0) = x.
+Proof.
+  intros x Hx.
+  rewrite get_u32_spec by apply byte_of_lt.
+  rewrite byte_of_0, byte_of_1, byte_of_2, byte_of_3.
+  lia.
+Qed.
+
+Lemma get_u32_lt : forall b3 b2 b1 b0, b3 < 256 -> b2 < 256 -> b1 < 256 -> b0 < 256 ->
+  get_u32 b3 b2 b1 b0 < 4294967296.
+Proof.
+  intros. rewrite get_u32_spec by assumption. lia.
+Qed.
+
+Lemma put_get_u32 : forall b3 b2 b1 b0, b3 < 256 -> b2 < 256 -> b1 < 256 -> b0 < 256 ->
+  put_u32 (get_u32 b3 b2 b1 b0) = [b3; b2; b1; b0].
+Proof.
+  intros b3 b2 b1 b0 H3 H2 H1 H0. unfold put_u32.
+  rewrite byte_of_0, byte_of_1, byte_of_2, byte_of_3.
+  rewrite get_u32_spec by assumption.
+  repeat f_equal; lia.
+Qed.
+
+Local Close Scope N_scope.
+
+(** ** Binary codec *)
 
 Theorem bin_roundtrip :
   forall id gen, (id < u32_bound)%N -> (gen < u32_bound)%N ->
   unmarshal_bin (marshal_bin id gen) = Some (id, gen).
-Admitted.
+Proof.
+  intros id gen Hid Hgen. unfold u32_bound in *.
+  unfold marshal_bin, put_u32. cbn [app unmarshal_bin].
+  rewrite (get_put_u32 id Hid), (get_put_u32 gen Hgen). reflexivity.
+Qed.
 
 Theorem bin_length : forall id gen, length (marshal_bin id gen) = 8.
-Admitted.
+Proof. intros. reflexivity. Qed.
 
 Theorem bin_bytes : forall id gen, Forall (fun b => (b < 256)%N) (marshal_bin id gen).
-Admitted.
+Proof.
+  intros. unfold marshal_bin, put_u32. cbn [app].
+  repeat (apply Forall_cons; [apply byte_of_lt|]). apply Forall_nil.
+Qed.
 
 (** Malformed input (any length other than 8) is rejected. *)
 Theorem bin_reject : forall data, length data <> 8 -> unmarshal_bin data = None.
-Admitted.
+Proof.
+  intros data H.
+  do 8 (destruct data as [|? data]; [reflexivity|]).
+  destruct data; [exfalso; apply H; reflexivity | reflexivity].
+Qed.
 
 (** Every 8-byte string decodes, to the handle whose encoding it is (the codec is a bijection). *)
 Theorem bin_decode_total :
   forall data, length data = 8 -> Forall (fun b => (b < 256)%N) data ->
   exists id gen, (id < u32_bound)%N /\ (gen < u32_bound)%N /\
                  unmarshal_bin data = Some (id, gen) /\ marshal_bin id gen = data.
-Admitted.
+Proof.
+  intros data Hlen Hall.
+  do 8 (destruct data as [|? data]; [discriminate Hlen|]).
+  destruct data; [|discriminate Hlen].
+  repeat match goal with
+         | H : Forall _ (_ :: _) |- _ =>
+             let Hh := fresh "Hb" in
+             pose proof (Forall_inv H) as Hh; apply Forall_inv_tail in H
+         end.
+  cbv beta in *.
+  eexists. eexists. unfold u32_bound. cbn [unmarshal_bin].
+  split; [|split; [|split; [reflexivity|]]].
+  - apply get_u32_lt; assumption.
+  - apply get_u32_lt; assumption.
+  - unfold marshal_bin. rewrite !put_get_u32 by assumption. reflexivity.
+Qed.
 
 Theorem bin_append : forall buf id gen, append_bin buf id gen = buf ++ marshal_bin id gen.
-Admitted.
+Proof. intros. reflexivity. Qed.
+
+(** ** JSON codec *)
+
+Local Open Scope N_scope.
+
+Definition is_digit (c : N) : bool := (N.leb 48 c && N.leb c 57)%bool.
+
+Definition value_of (ds : list N) (a : N) : N :=
+  fold_left (fun a c => a * 10 + (c - 48)) ds a.
+
+Definition nondigit_head (l : list N) : Prop :=
+  match l with
+  | [] => True
+  | c :: _ => is_digit c = false
+  end.
+
+Lemma parse_num_cons : forall c t acc,
+  parse_num (c :: t) acc =
+  if is_digit c
+  then parse_num t (Some (match acc with Some a => a * 10 + (c - 48) | None => c - 48 end))
+  else (acc, c :: t).
+Proof. intros. reflexivity. Qed.
+
+Lemma parse_num_digits_some : forall ds rest a,
+  Forall (fun c => is_digit c = true) ds -> nondigit_head rest ->
+  parse_num (ds ++ rest) (Some a) = (Some (value_of ds a), rest).
+Proof.
+  induction ds as [|d ds IH]; intros rest a Hds Hrest.
+  - cbn [app value_of fold_left].
+    destruct rest as [|c t]; [reflexivity|].
+    rewrite parse_num_cons. unfold nondigit_head in Hrest. rewrite Hrest. reflexivity.
+  - cbn [app]. rewrite parse_num_cons.
+    rewrite (Forall_inv Hds).
+    rewrite IH by (try apply (Forall_inv_tail Hds); assumption).
+    reflexivity.
+Qed.
+
+Lemma parse_num_digits_none : forall ds rest,
+  ds <> [] ->
+  Forall (fun c => is_digit c = true) ds -> nondigit_head rest ->
+  parse_num (ds ++ rest) None = (Some (value_of ds 0), rest).
+Proof.
+  intros [|d ds] rest Hne Hds Hrest; [congruence|].
+  cbn [app]. rewrite parse_num_cons. rewrite (Forall_inv Hds).
+  rewrite parse_num_digits_some by (try apply (Forall_inv_tail Hds); assumption).
+  unfold value_of. cbn [fold_left]. rewrite N.mul_0_l, N.add_0_l. reflexivity.
+Qed.
+
+Lemma value_of_snoc : forall ds d a, value_of (ds ++ [d]) a = value_of ds a * 10 + (d - 48).
+Proof.
+  intros. unfold value_of. rewrite fold_left_app. reflexivity.
+Qed.
+
+Lemma is_digit_mod10 : forall x, is_digit (48 + x mod 10) = true.
+Proof.
+  intros x. unfold is_digit.
+  assert (x mod 10 < 10) by (apply N.mod_lt; discriminate).
+  apply andb_true_intro. split; apply N.leb_le; lia.
+Qed.
+
+Lemma dec_digits_spec : forall fuel x acc,
+  x < 10 ^ N.of_nat fuel -> (0 < fuel)%nat ->
+  exists ds, dec_digits fuel x acc = ds ++ acc /\ ds <> [] /\
+             Forall (fun c => is_digit c = true) ds /\ value_of ds 0 = x.
+Proof.
+  induction fuel as [|f IH]; intros x acc Hx Hf; [inversion Hf|].
+  cbn [dec_digits].
+  destruct (N.ltb_spec x 10) as [Hlt|Hge].
+  - exists [48 + x mod 10]. split; [reflexivity|]. split; [discriminate|]. split.
+    + constructor; [apply is_digit_mod10|constructor].
+    + unfold value_of. cbn [fold_left]. lia.
+  - assert (Hf' : (0 < f)%nat).
+    { destruct f; [|lia]. change (10 ^ N.of_nat 1) with 10 in Hx. lia. }
+    assert (Hx' : x / 10 < 10 ^ N.of_nat f).
+    { rewrite Nat2N.inj_succ, N.pow_succ_r' in Hx.
+      apply N.div_lt_upper_bound; [discriminate|exact Hx]. }
+    destruct (IH (x / 10) ((48 + x mod 10) :: acc) Hx' Hf') as (ds & Heq & Hne & Hall & Hval).
+    exists (ds ++ [48 + x mod 10]). split; [|split; [|split]].
+    + rewrite Heq, <- app_assoc. reflexivity.
+    + intros E. apply app_eq_nil in E. destruct E; discriminate.
+    + apply Forall_app. split; [exact Hall|].
+      constructor; [apply is_digit_mod10|constructor].
+    + rewrite value_of_snoc, Hval. lia.
+Qed.
+
+Lemma parse_dec : forall x rest, x < 4294967296 -> nondigit_head rest ->
+  parse_num (dec x ++ rest) None = (Some x, rest).
+Proof.
+  intros x rest Hx Hrest. unfold dec.
+  destruct (dec_digits_spec 12 x []) as (ds & Heq & Hne & Hall & Hval).
+  - change (10 ^ N.of_nat 12) with 1000000000000. lia.
+  - lia.
+  - rewrite Heq, app_nil_r.
+    rewrite parse_num_digits_none by assumption. rewrite Hval. reflexivity.
+Qed.
+
+Local Close Scope N_scope.
 
 Theorem json_roundtrip :
   forall id gen, (id < u32_bound)%N -> (gen < u32_bound)%N ->
   unmarshal_json (marshal_json id gen) = Some (id, gen).
-Admitted.
+Proof.
+  intros id gen Hid Hgen. unfold u32_bound in *.
+  unfold marshal_json.
+  change ([91%N] ++ dec id ++ [44%N] ++ dec gen ++ [93%N])
+    with (91%N :: (dec id ++ 44%N :: (dec gen ++ [93%N]))).
+  unfold unmarshal_json.
+  rewrite (parse_dec id (44%N :: dec gen ++ [93%N]) Hid) by reflexivity.
+  rewrite (parse_dec gen [93%N] Hgen) by reflexivity.
+  apply N.ltb_lt in Hid, Hgen. rewrite Hid, Hgen. reflexivity.
+Qed.
+
+Print Assumptions bin_roundtrip.
+Print Assumptions bin_length.
+Print Assumptions bin_bytes.
+Print Assumptions bin_reject.
+Print Assumptions bin_decode_total.
+Print Assumptions bin_append.
+Print Assumptions json_roundtrip.
